@@ -94,34 +94,59 @@ def pb(x):
     return InMemoryPartition({"b": "pb-%s" % x, "c": [1, 2], "s": "shared"})
 
 
+@m.memento_function(cluster="vfc", version="1")
+def ping(x):
+    """ping(1) -> pong(0), pong(1) -> ping(0): two call trees that cross."""
+    sys.audit("vf.body", "ping", x)
+    return "ping(%s)" % (pong(x - 1) if x > 0 else "")
+
+
+@m.memento_function(cluster="vfc", version="1")
+def pong(x):
+    sys.audit("vf.body", "pong", x)
+    return "pong(%s)" % (ping(x - 1) if x > 0 else "")
+
+
+@m.memento_function(cluster="vfc", version="1")
+def same(x):
+    """Different calls, byte-identical results (one content-addressed object, one link)."""
+    sys.audit("vf.body", "same", x)
+    return "identical-result"
+
+
+@m.memento_function(cluster="vfc", version="1")
+def ko(x):
+    """Different calls writing different results under ONE key override."""
+    from twosigma.memento.result import KeyOverrideResult
+
+    sys.audit("vf.body", "ko", x)
+    return KeyOverrideResult("ko-result-%s" % x, "ko/shared#key")
+
+
 class Transient(NonMemoizedException):
     pass
 
 
-_runs = {}      # x -> number of body executions of flaky(x) so far (reset by the harness per execution)
-_inside = set()  # x currently inside the body of flaky(x)
+from . import c09aux as _aux
+
+_runs = _aux.runs
+_inside = _aux.inside
 
 
 @m.memento_function(cluster="vfc", version="1")
 def flaky(x):
     """First execution fails with a not-to-be-memoized exception, later ones succeed. Two executions of the body for
-    the same argument must never overlap (the per-call mutex serialises them)."""
-    sys.audit("vf.body", "flaky", x)
-    if x in _inside:
-        sys.audit("vf.body", "OVERLAP", x)
-    _inside.add(x)
+    the same argument must never overlap (the per-call mutex serialises them). Three traced lines: a thread can be
+    preempted between entering and leaving the body."""
+    _aux.enter(x)
     try:
-        _runs[x] = _runs.get(x, 0) + 1
-        n = _runs[x]
-        if n == 1:
-            raise Transient("first attempt of flaky(%s) fails" % x)
-        return "flaky-%s" % x
+        return _aux.attempt(x, Transient)
     finally:
         _inside.discard(x)
 
 
 # the reference: what an un-memoized program returns, and the call tree below each call
-CALLS = {"hid_a": (), "ex": ("solo_b",), "pa": (), "pb": (), "flaky": (), "gnone": (), "g": (), "h": (), "solo_a": (), "solo_b": (), "leaf": (), "mid": ("leaf",), "top1": ("mid",), "top2": ("mid",)}
+CALLS = {"ping": ("pong",), "pong": ("ping",), "same": (), "ko": (), "hid_a": (), "ex": ("solo_b",), "pa": (), "pb": (), "flaky": (), "gnone": (), "g": (), "h": (), "solo_a": (), "solo_b": (), "leaf": (), "mid": ("leaf",), "top1": ("mid",), "top2": ("mid",)}
 _FMT = {"ex": "ex(%s)", "flaky": "flaky-%s", "g": "val-%s", "h": "other-%s", "solo_a": "a-%s", "solo_b": "b-%s", "leaf": "leaf-%s", "mid": "mid(%s)",
         "top1": "top1(%s)", "top2": "top2(%s)"}
 
@@ -152,6 +177,13 @@ def expected(fn, x):
         return None
     if fn == "hid_a":
         return ("raises", "UndeclaredDependencyError")
+    if fn in ("ping", "pong"):
+        other = "pong" if fn == "ping" else "ping"
+        return "%s(%s)" % (fn, expected(other, x - 1) if x > 0 else "")
+    if fn == "same":
+        return "identical-result"
+    if fn == "ko":
+        return "ko-result-%s" % x
     if fn == "pa":
         return {"a": "pa-%s" % x, "s": "shared"}
     if fn == "pb":
@@ -167,6 +199,8 @@ def closure(fn, x):
     fn = base(fn)
     if fn == "hid_a":
         return [(fn + mark, x)]  # the hidden call is refused before anything runs beneath it
+    if fn in ("ping", "pong"):
+        return [(fn + mark, x)] + (closure(("pong" if fn == "ping" else "ping") + mark, x - 1) if x > 0 else [])
     out = [(fn + mark, x)]
     for c in CALLS[fn]:
         out += closure(c + mark, x)
